@@ -4,36 +4,59 @@
 From Coq Require Import List Bool Arith.
 Import ListNotations.
 Require Import PonyV.Model.C34Perm PonyV.Gen.C34Src PonyV.Proofs.C34Proofs.
+Require Import PonyV.Model.C34Obs.   (* the 2-entity universe of the correspondence run: built with this cone *)
 #[local] Open Scope list_scope.
 
+(* has_perm as it is in /repo (its variation points are re-read from pony/orm/core.py on every run, Gen/C34Src.v) equals the
+   specification - for EVERY schema, rule set (in any iteration order), user (groups, roles per object), object (labels) and target:
+   entity, attribute (incl. relationship attributes and exclusions on the reverse side) or object *)
+Theorem C34_has_perm_spec : forall attr_ent attr_rev attr_hidden obj_ent (rules : nat -> nat -> list rule) ugroups uroles olabels p x,
+  has_perm rev_loop_iterates_reverse_rules obj_exclusion_tests_entity missing_reverse_rules_returns_false
+           attr_ent attr_rev attr_hidden obj_ent rules ugroups uroles olabels p x = true
+  <-> spec attr_ent attr_rev attr_hidden obj_ent rules ugroups uroles olabels p x.
+Proof. exact has_perm_now_spec. Qed.
+Print Assumptions C34_has_perm_spec.
+
+(* can_view = the specification for 'view' or for 'edit' *)
+Theorem C34_can_view_spec : forall attr_ent attr_rev attr_hidden obj_ent (rules : nat -> nat -> list rule) ugroups uroles olabels x,
+  can_view rev_loop_iterates_reverse_rules obj_exclusion_tests_entity missing_reverse_rules_returns_false
+           attr_ent attr_rev attr_hidden obj_ent rules ugroups uroles olabels x = true
+  <-> spec attr_ent attr_rev attr_hidden obj_ent rules ugroups uroles olabels VIEW x
+      \/ spec attr_ent attr_rev attr_hidden obj_ent rules ugroups uroles olabels EDIT x.
+Proof. exact can_view_now_spec. Qed.
+Print Assumptions C34_can_view_spec.
+
+(* to_json never includes an object the declared rules do not let the user view, and refuses exactly when there is one *)
+Theorem C34_to_json_spec : forall attr_ent attr_rev attr_hidden obj_ent (rules : nat -> nat -> list rule) ugroups uroles olabels objs l,
+  to_json_objects rev_loop_iterates_reverse_rules obj_exclusion_tests_entity missing_reverse_rules_returns_false
+                  attr_ent attr_rev attr_hidden obj_ent rules ugroups uroles olabels objs = Some l ->
+  l = objs /\ forall o, In o l -> spec attr_ent attr_rev attr_hidden obj_ent rules ugroups uroles olabels VIEW (TObj o)
+                                  \/ spec attr_ent attr_rev attr_hidden obj_ent rules ugroups uroles olabels EDIT (TObj o).
+Proof. exact to_json_now_spec. Qed.
+Print Assumptions C34_to_json_spec.
+
+Theorem C34_to_json_refuses_spec : forall attr_ent attr_rev attr_hidden obj_ent (rules : nat -> nat -> list rule) ugroups uroles olabels objs,
+  to_json_objects rev_loop_iterates_reverse_rules obj_exclusion_tests_entity missing_reverse_rules_returns_false
+                  attr_ent attr_rev attr_hidden obj_ent rules ugroups uroles olabels objs = None
+  <-> exists o, In o objs /\ ~ (spec attr_ent attr_rev attr_hidden obj_ent rules ugroups uroles olabels VIEW (TObj o)
+                               \/ spec attr_ent attr_rev attr_hidden obj_ent rules ugroups uroles olabels EDIT (TObj o)).
+Proof. exact to_json_now_refuses. Qed.
+Print Assumptions C34_to_json_refuses_spec.
+
+(* the branches separately, and facts that hold for every spelling of the variation points *)
 (* entity-level check = specification, for all rule sets, users and schemas *)
 Theorem C34_entity : forall (rules : nat -> nat -> list rule) (ugroups : list nat) e p,
   has_perm_entity rules ugroups e p = true <-> spec_entity rules ugroups e p.
 Proof. exact entity_spec. Qed.
 Print Assumptions C34_entity.
 
-(* object-level check, exact characterisation for both spellings of the exclusion test *)
+(* object-level check, exact characterisation for both spellings of the exclusion test (f_obj = true is the current source) *)
 Theorem C34_object_general : forall (f_obj : bool) obj_ent (rules : nat -> nat -> list rule) ugroups uroles olabels o p,
   has_perm_obj f_obj obj_ent rules ugroups uroles olabels o p = true <->
   exists r, In r (rules (obj_ent o) p) /\ groups_ok ugroups r = true /\ subset (r_roles r) (uroles o) = true
             /\ subset (r_labels r) (olabels o) = true /\ (f_obj = true -> mem (obj_ent o) (r_exclE r) = false).
 Proof. exact obj_general. Qed.
 Print Assumptions C34_object_general.
-
-(* = specification if the source tested the object's entity against entities_to_exclude *)
-Theorem C34_object_if_entity_tested : forall (f_obj : bool) obj_ent (rules : nat -> nat -> list rule) ugroups uroles olabels o p,
-  f_obj = true ->
-  (has_perm_obj f_obj obj_ent rules ugroups uroles olabels o p = true <-> spec_obj obj_ent rules ugroups uroles olabels o p).
-Proof. exact obj_spec_if_entity_tested. Qed.
-Print Assumptions C34_object_if_entity_tested.
-
-(* as the source is: = specification on the exact complement of the known finding (no rule for the permission excludes the object's entity);
-   and never more restrictive than the specification *)
-Theorem C34_object_except_known : forall (f_obj : bool) obj_ent (rules : nat -> nat -> list rule) ugroups uroles olabels o p,
-  (forall r, In r (rules (obj_ent o) p) -> mem (obj_ent o) (r_exclE r) = false) ->
-  (has_perm_obj f_obj obj_ent rules ugroups uroles olabels o p = true <-> spec_obj obj_ent rules ugroups uroles olabels o p).
-Proof. exact obj_spec_except_known. Qed.
-Print Assumptions C34_object_except_known.
 
 Theorem C34_object_grants_all_declared : forall (f_obj : bool) obj_ent (rules : nat -> nat -> list rule) ugroups uroles olabels o p,
   spec_obj obj_ent rules ugroups uroles olabels o p -> has_perm_obj f_obj obj_ent rules ugroups uroles olabels o p = true.
@@ -59,22 +82,6 @@ Theorem C34_attr_closed_form : forall (f_rev f_miss : bool) attr_ent attr_rev at
   end.
 Proof. exact attr_closed_form. Qed.
 Print Assumptions C34_attr_closed_form.
-
-(* = specification for every attribute that is not a relationship (whatever the variation points) *)
-Theorem C34_attr_no_reverse_except_known : forall (f_rev f_miss : bool) attr_ent attr_rev attr_hidden (rules : nat -> nat -> list rule) ugroups a p,
-  attr_rev a = None ->
-  (has_perm_attr f_rev f_miss attr_ent attr_rev attr_hidden rules ugroups a p = true
-   <-> spec_attr attr_ent attr_rev attr_hidden rules ugroups a p).
-Proof. exact attr_spec_no_reverse. Qed.
-Print Assumptions C34_attr_no_reverse_except_known.
-
-(* = specification for all attributes if the inner loop iterates the reverse rules and missing reverse rules do not short-circuit *)
-Theorem C34_attr_if_fixed : forall (f_rev f_miss : bool) attr_ent attr_rev attr_hidden (rules : nat -> nat -> list rule) ugroups a p,
-  f_rev = true -> f_miss = false ->
-  (has_perm_attr f_rev f_miss attr_ent attr_rev attr_hidden rules ugroups a p = true
-   <-> spec_attr attr_ent attr_rev attr_hidden rules ugroups a p).
-Proof. exact attr_spec_if_fixed. Qed.
-Print Assumptions C34_attr_if_fixed.
 
 Theorem C34_spec_bool : forall attr_ent attr_rev attr_hidden obj_ent (rules : nat -> nat -> list rule) ugroups uroles olabels p x,
   spec_b attr_ent attr_rev attr_hidden obj_ent rules ugroups uroles olabels p x = true
@@ -117,9 +124,9 @@ Print Assumptions C34_stable.
 (* not vacuous: a rule for group 1 with role 1 and label 1 grants exactly the object that carries them *)
 Example C34_nonvacuous :
   let rules := fun e p => if (e =? 0) && (p =? 0) then [mkrule [0; 1] [1] [1] [] [2]] else [] in
-  has_perm_obj false (fun _ => 0) rules [0; 1] (fun o => if o =? 5 then [1] else []) (fun o => [1]) 5 0 = true
-  /\ has_perm_obj false (fun _ => 0) rules [0; 1] (fun o => if o =? 5 then [1] else []) (fun o => [1]) 6 0 = false
-  /\ has_perm_attr false true (fun _ => 0) (fun _ => None) (fun _ => false) rules [0; 1] 2 0 = false
-  /\ has_perm_attr false true (fun _ => 0) (fun _ => None) (fun _ => false) rules [0; 1] 3 0 = true.
+  has_perm_obj true (fun _ => 0) rules [0; 1] (fun o => if o =? 5 then [1] else []) (fun o => [1]) 5 0 = true
+  /\ has_perm_obj true (fun _ => 0) rules [0; 1] (fun o => if o =? 5 then [1] else []) (fun o => [1]) 6 0 = false
+  /\ has_perm_attr true false (fun _ => 0) (fun _ => None) (fun _ => false) rules [0; 1] 2 0 = false
+  /\ has_perm_attr true false (fun _ => 0) (fun _ => None) (fun _ => false) rules [0; 1] 3 0 = true.
 Proof. vm_compute. repeat split; reflexivity. Qed.
 Print Assumptions C34_nonvacuous.
